@@ -105,6 +105,8 @@ def rand_universe(rng):
     """a population: several versions of several ids of every type kind, with labels / refs / numbers / creators / relationships"""
     recs = []
     ids = rng.sample([11, 16, 21, 22, 26, 31, 32, 41, 46, 51, 61, 66, 81, 86, 91, 92], rng.randint(3, 8))
+    if 51 not in ids and rng.random() < 0.6:
+        ids.append(51)           # a STIX 2.0 object (millisecond precision) in most populations
     if rng.random() < 0.3:       # a type whose every id is a non-v4 UUID
         ids = [i for i in ids if i // 10 != 6] + [66, 67]
     for i in ids:
@@ -321,6 +323,18 @@ def pipeline(chk):
                                                    extra={"routes": {"argument": len(fl), "attached": len(att)}}))
                     finally:
                         src.filters.remove([f for f in list(src.filters)])
+            # timestamp filters whose value lies strictly between two instants a STIX 2.0 object could have (2.0 keeps milliseconds, the value has finer digits): the value is
+            # an instant, not something to be rounded to the property's precision first
+            ind20 = [r for r in recs if r["type"] == D.T_IND20]
+            if ind20:
+                r0 = rng.choice(ind20)
+                for name, store in (("memory", pair.mem), ("fs", pair.fs)):
+                    listed = pair.listed["mem" if name == "memory" else "fs"]
+                    for op in ("=", "!=", "<", "<=", ">", ">="):
+                        for val in (r0["ver"] + 1, r0["ver"] + 2):
+                            fl = [flt("modified", op, val)] + ([flt("type", "=", D.T_IND20)] if rng.random() < 0.5 else [])
+                            lines.append(read_line(tid, "query", name, listed, pair.ref, lambda: store.query([D.conc_filter(f, rng) for f in fl]), filters=fl,
+                                                   extra={"routes": {"argument": len(fl), "sub_precision_value": 1}}))
             # composite over 2-3 members holding overlapping parts of the population
             nm = rng.choice([2, 3])
             parts = [[] for _ in range(nm)]
